@@ -130,7 +130,17 @@ pub fn run(ctx: &mut RunCtx) -> Result<(), Violation> {
                 let env_v = ctx.env(&mut s);
                 let d = deliver(ctx, &node2, &honest[0], honest[0].version, &env_v)?;
                 ctx.st.eval(sig ^ 0x77 ^ digest(what.as_bytes()), true);
-                if d.accepted() {
+                // a public input moved to another row: if every moved input is zero the two descriptions
+                // state the same thing for this vector and acceptance is correct (see C04 / DESIGN.md 9.7)
+                let same_statement = what == "public_input_moved_to_another_row" && {
+                    let nz = |rows: &[u64], pi: &[BlsScalar]| -> Vec<(u64, BlsScalar)> {
+                        rows.iter().zip(pi.iter()).filter(|(_, v)| **v != BlsScalar::zero()).map(|(r, v)| (*r, *v)).collect()
+                    };
+                    nz(&node.rm.pi_rows, &honest[0].pi) == nz(&node2.rm.pi_rows, &honest[0].pi)
+                };
+                if d.accepted() && same_statement {
+                    ctx.st.probe("moved_public_input_is_zero(same statement, accepted)");
+                } else if d.accepted() {
                     return Err(Violation::new("I-refine", format!("proof accepted by both verifiers of a different circuit ({})", what)));
                 }
             }
